@@ -181,16 +181,32 @@ impl MemoryPool {
         self.alloc_count.fetch_add(1, Ordering::Relaxed);
 
         // Try to get a chunk from the pool first
+        #[cfg(zipora_verif)]
+        crate::memory::verif_sched::point(crate::memory::verif_sched::MP_ALLOC_LOCK);
         if let Ok(mut free_chunks) = self.free_chunks.try_lock() {
+            #[cfg(zipora_verif)]
+            {
+                crate::memory::verif_sched::note(crate::memory::verif_sched::MP_ALLOC_LOCK, 1);
+                crate::memory::verif_sched::point(crate::memory::verif_sched::MP_ALLOC_POP);
+            }
             if let Some(chunk) = free_chunks.pop_front() {
+                #[cfg(zipora_verif)]
+                crate::memory::verif_sched::note(crate::memory::verif_sched::MP_ALLOC_POP, 1);
                 self.pool_hits.fetch_add(1, Ordering::Relaxed);
                 self.update_stats_on_alloc(true);
                 // Safety: chunk came from our own allocation, so it's non-null
                 return Ok(unsafe { NonNull::new_unchecked(chunk) });
             }
+            #[cfg(zipora_verif)]
+            crate::memory::verif_sched::note(crate::memory::verif_sched::MP_ALLOC_POP, 0);
+        } else {
+            #[cfg(zipora_verif)]
+            crate::memory::verif_sched::note(crate::memory::verif_sched::MP_ALLOC_LOCK, 0);
         }
 
         // Pool is empty or locked, allocate new chunk
+        #[cfg(zipora_verif)]
+        crate::memory::verif_sched::point(crate::memory::verif_sched::MP_ALLOC_MISS);
         self.pool_misses.fetch_add(1, Ordering::Relaxed);
         self.allocate_new_chunk()
     }
@@ -210,16 +226,34 @@ impl MemoryPool {
         self.dealloc_count.fetch_add(1, Ordering::Relaxed);
 
         // Try to return chunk to pool if not full
+        #[cfg(zipora_verif)]
+        crate::memory::verif_sched::point(crate::memory::verif_sched::MP_FREE_LOCK);
         if let Ok(mut free_chunks) = self.free_chunks.try_lock() {
+            #[cfg(zipora_verif)]
+            {
+                crate::memory::verif_sched::note(crate::memory::verif_sched::MP_FREE_LOCK, 1);
+                crate::memory::verif_sched::point(crate::memory::verif_sched::MP_FREE_PUSH);
+            }
             if free_chunks.len() < self.config.max_chunks {
                 free_chunks.push_back(chunk.as_ptr());
+                #[cfg(zipora_verif)]
+                crate::memory::verif_sched::note(crate::memory::verif_sched::MP_FREE_PUSH, 1);
                 self.update_stats_on_dealloc(true);
                 return Ok(());
             }
+            #[cfg(zipora_verif)]
+            crate::memory::verif_sched::note(crate::memory::verif_sched::MP_FREE_PUSH, 0);
+        } else {
+            #[cfg(zipora_verif)]
+            crate::memory::verif_sched::note(crate::memory::verif_sched::MP_FREE_LOCK, 0);
         }
 
         // Pool is full or locked, deallocate directly
+        #[cfg(zipora_verif)]
+        crate::memory::verif_sched::point(crate::memory::verif_sched::MP_FREE_DIRECT);
         self.deallocate_chunk(chunk);
+        #[cfg(zipora_verif)]
+        crate::memory::verif_sched::point(crate::memory::verif_sched::MP_FREE_STATS);
         self.update_stats_on_dealloc(false);
         Ok(())
     }
@@ -282,6 +316,13 @@ impl MemoryPool {
         &self.config
     }
 
+    /// Verification inspector: addresses of the pooled chunks, front first (`None` while the
+    /// queue is locked by a thread).
+    #[cfg(zipora_verif)]
+    pub fn verif_free_chunks(&self) -> Option<Vec<usize>> {
+        self.free_chunks.try_lock().ok().map(|q| q.iter().map(|&p| p as usize).collect())
+    }
+
     fn allocate_new_chunk(&self) -> Result<NonNull<u8>> {
         let layout = Layout::from_size_align(self.config.chunk_size, self.config.alignment)
             .map_err(|_| ZiporaError::invalid_data("invalid layout for chunk allocation"))?;
@@ -292,6 +333,8 @@ impl MemoryPool {
             return Err(ZiporaError::out_of_memory(self.config.chunk_size));
         }
 
+        #[cfg(zipora_verif)]
+        crate::memory::verif_sched::point(crate::memory::verif_sched::MP_ALLOC_STATS);
         self.update_stats_on_alloc(false);
 
         // Safety: We just checked that ptr is not null
